@@ -201,6 +201,7 @@ pub struct World {
     // clients / listeners
     clients: RefCell<Vec<Client>>,
     pub laddrs: RefCell<Vec<LAddr>>,
+    pub listener_fds: RefCell<Vec<RawFd>>,
     // actors
     server: RefCell<Option<Pin<Box<Server>>>>,
     pub server_done: Cell<Option<bool>>,
@@ -379,7 +380,10 @@ impl Observer for Obs {
     fn poll_tokens(&self, tokens: &[usize]) {
         let w = &self.0;
         let got: BTreeSet<usize> = tokens.iter().copied().collect();
-        let shadow = std::mem::take(&mut *w.edges.borrow_mut());
+        let maybe = std::mem::take(&mut *w.edges.borrow_mut());
+        // a pending listener edge is only reported if the listener is still readable
+        let fds = verif_listener_fds(&w.listener_fds.borrow());
+        let shadow: BTreeSet<usize> = maybe.into_iter().filter(|t| *t == usize::MAX || fds.get(*t).map_or(false, |fd| fd_readable(*fd, 0))).collect();
         if got != shadow {
             w.rec(Rec::Machinery(format!("edge shadow {:?} differs from the tokens the real poll returned {:?}", shadow, got)));
         }
@@ -398,6 +402,10 @@ impl Observer for Obs {
 // ---------------------------------------------------------------------------------------
 // low-level probes
 // ---------------------------------------------------------------------------------------
+
+fn verif_listener_fds(v: &[RawFd]) -> Vec<RawFd> {
+    v.to_vec()
+}
 
 fn fd_readable(fd: RawFd, timeout_ms: i32) -> bool {
     let mut p = libc::pollfd { fd, events: libc::POLLIN, revents: 0 };
@@ -532,7 +540,8 @@ impl World {
     }
 
     pub fn edges(&self) -> Vec<usize> {
-        self.edges.borrow().iter().copied().collect()
+        let fds = self.listener_fds.borrow();
+        self.edges.borrow().iter().copied().filter(|t| *t == usize::MAX || fds.get(*t).map_or(false, |fd| fd_readable(*fd, 0))).collect()
     }
 
     pub fn take_points(&self) -> Vec<Point> {
@@ -598,9 +607,13 @@ impl World {
             return;
         }
         let before_reg = self.listener_registered();
+        let mut before_view = None;
         if let Some(v) = verif::accept_view() {
-            self.rec(Rec::AcceptQueueBefore(v.queue));
+            *self.listener_fds.borrow_mut() = v.listener_fds.clone();
+            self.rec(Rec::AcceptQueueBefore(v.queue.clone()));
+            before_view = Some(v);
         }
+        let log_len = self.log.borrow().len();
         let r = mcutil::quiet_catch(|| verif::accept_step());
         self.last_accept_turn.set(Some(tokio::time::Instant::now()));
         match r {
@@ -613,9 +626,46 @@ impl World {
                     }
                     // listeners (re-)registered during this turn with a non-empty backlog fire an edge
                     let after = self.listener_registered();
+                    // Which listeners were registered anew during this turn? Either they were not
+                    // registered before, or the turn processed Pause and then Resume. (This shadow is
+                    // only used for the state key and is validated against the tokens the real poll
+                    // returns on the next turn.)
+                    let mut rereg = vec![false; after.len()];
+                    if let Some(b) = &before_view {
+                        let waker_seen = self.log.borrow()[log_len..].iter().any(|(_, _, r)| matches!(r, Rec::AcceptTokens(t) if t.contains(&usize::MAX)));
+                        let mut reg = before_reg.clone();
+                        let mut paused = b.paused;
+                        let mut backing_off: Vec<bool> = b.socket_deadlines.iter().map(|d| d.is_some()).collect();
+                        if waker_seen {
+                            for cmd in &b.queue {
+                                match cmd.as_str() {
+                                    "Pause" if !paused => {
+                                        paused = true;
+                                        for l in 0..reg.len() {
+                                            if !backing_off[l] {
+                                                reg[l] = false;
+                                            }
+                                            backing_off[l] = false;
+                                        }
+                                    }
+                                    "Resume" if paused => {
+                                        paused = false;
+                                        for l in 0..reg.len() {
+                                            if !reg[l] {
+                                                reg[l] = true;
+                                                rereg[l] = true;
+                                            }
+                                        }
+                                    }
+                                    _ => {}
+                                }
+                            }
+                        }
+                    }
                     if let Some(v) = verif::accept_view() {
                         for (i, fd) in v.listener_fds.iter().enumerate() {
-                            if after.get(i) == Some(&true) && before_reg.get(i) == Some(&false) && fd_readable(*fd, 0) {
+                            let newly = before_reg.get(i) == Some(&false) || rereg.get(i) == Some(&true);
+                            if after.get(i) == Some(&true) && newly && fd_readable(*fd, 0) {
                                 self.edges.borrow_mut().insert(i);
                             }
                         }
@@ -807,6 +857,7 @@ impl Sys {
             current_turn_slot: Cell::new(None),
             clients: RefCell::new(vec![]),
             laddrs: RefCell::new(vec![]),
+            listener_fds: RefCell::new(vec![]),
             server: RefCell::new(None),
             server_done: Cell::new(None),
             handle: RefCell::new(None),
@@ -862,6 +913,9 @@ impl Sys {
         w.server_turn();
         for s in 0..verif::worker_slots() {
             w.worker_flag(s);
+        }
+        if let Some(v) = verif::accept_view() {
+            *w.listener_fds.borrow_mut() = v.listener_fds.clone();
         }
         // the initial registration of a listener fires no edge (nothing is waiting yet)
         w.last_accept_turn.set(Some(tokio::time::Instant::now()));
